@@ -24,8 +24,8 @@ TRUSTED_BASE = [
 ]
 ASSUMPTIONS = ["inputs are stabilizer tableaux of pure states (n independent commuting generators); dependent generators are the malformed stream"]
 
-KEY_D42 = "inverse_circuit:incomplete-synthesis:block1-pivot-selection"
-# smallest known witness of D42 (found by this harness): 5 qubits, generators -XIYXI, -IXXZZ, IIZZX, -ZIIZI, IZZZI
+# regression input: the smallest witness of D42 (found by this harness, repaired in graphiq 74abae4): 5 qubits, generators
+# -XIYXI, -IXXZZ, IIZZX, -ZIIZI, IZZZI; before the repair the returned tableau was not |0..0>; it must pass like any other input
 D42_WITNESS = "n=5 x=1011001100000010000000000 z=0010000011001101001001110 r=11010"
 
 DENSE_GATE = {"H": tu.H, "P": tu.S, "P_dag": tu.S.conj().T, "X": tu.X, "Y": tu.Y, "Z": tu.Z}
@@ -136,16 +136,10 @@ def flush(res, drv, pending):
                           dict(circ=su.circ_token(circ), model=r_run["_raw"][:600])))
         else:
             res.traces_validated += 1
-        if fails:
-            # D42 (known finding): the pivot selection of the first synthesis block can leave a row without a diagonal pivot.
-            # The model mirrors the code, so when it predicts the same failure (zero=0) all consequences on this input are that one finding.
-            if r_inv["_status"] == "ok" and r_inv.get("zero") == "0":
-                res.count("errors", "D42:incomplete-synthesis")
-                res.violation(KEY_D42, "inverse_circuit's synthesis does not reach |0..0> (the model reproduces the failure); consequences: "
-                              + ", ".join(sorted(set(f[0] for f in fails))), input=inp, circ=su.circ_token(circ))
-            else:
-                for key, clause, extra in fails:
-                    res.violation(key, clause, input=inp, **extra)
+        # D42 (repaired in graphiq 74abae4) used to be routed to a known finding here; every failure of the oracle is now an
+        # ordinary violation under its own key
+        for key, clause, extra in fails:
+            res.violation(key, clause, input=inp, **extra)
         # exact correspondence of clifford_from_stabilizer
         if ct is not None and r_cl["_status"] == "ok":
             if tu.reply_tuple(r_cl) != tu.tab_tuple(ct):
@@ -252,7 +246,7 @@ def run(ctx, budget=1.0):
     drv = Driver()
     rng = ctx.rng
     pending = []
-    # corpus first: the known-finding witness
+    # corpus first: the witness of the repaired D42 (regression input, no special treatment)
     check_one(res, drv, stab_of_args(D42_WITNESS), "corpus:D42", pending)
     flush(res, drv, pending)
     # exhaustive small: all states n<=2 (quick) / n<=3 (thorough), several generating sets each
